@@ -438,7 +438,7 @@ impl Ctx {
                 let path = format!("{dir}/{}-{}-{:016x}.json", self.id, sanitize(&s.name), h);
                 let _ = std::fs::write(&path, text);
                 out_lines.push(format!("VIOLATION property={} replay={}", self.id, path));
-                eprintln!("[{}] violation in {}: {} :: {}", self.id, s.name, f.what, truncate(&f.detail, 1500));
+                eprintln!("[{}] violation in {}: {} :: {}", self.id, s.name, f.what, truncate(&f.detail, 500));
             }
             sub_json.push(json!({
                 "name": s.name, "evaluations": s.stats.evals, "distinct_nontrivial": s.stats.nontrivial.len(),
